@@ -354,10 +354,16 @@ def evalN (env : Env) (c : Cond) : Nat → St → List Bool × St
     let rs := evalN env c n r.2
     (r.1 :: rs.1, rs.2)
 
-theorem Itc.spin_succ (o : Itc) (k : Nat) : (o.spin k).eval.2 = o.spin (k + 1) := by
-  simp only [Itc.spin, Itc.eval, uintMod]
+/-- one more counting step, for any modulus -/
+theorem mod_step (a j m : Nat) : ((a + 1) % m + j + 1) % m = (a + (j + 1) + 1) % m := by
+  rw [Nat.add_assoc ((a + 1) % m) j 1, Nat.mod_add_mod]
   congr 1
   omega
+
+theorem Itc.spin_succ (m : Nat) (o : Itc) (k : Nat) : ((o.spin m k).eval m).2 = o.spin m (k + 1) := by
+  simp only [Itc.spin, Itc.eval]
+  congr 1
+  rw [Nat.mod_add_mod, Nat.add_assoc]
 
 /-! ### frame: operations that do not involve impl `i` -/
 
